@@ -313,8 +313,12 @@ def check(pid, tier, seed):
     nontriv = set(); dist = collections.Counter(); seen = set()
     for c in relevant:
         h = hashlib.sha1(c.req.encode()).hexdigest()
-        v = c.verdicts.get(oracle, 'missing')
-        failing = (not c.bad) and (v in ('FAILS', 'missing') or any(c.verdicts.get(o) == 'FAILS' for o in cfg.get('also', [])))
+        names = [oracle] + list(cfg.get('also', []))
+        present = [c.verdicts[n] for n in names if n in c.verdicts]
+        # the line's verdict for this property: its own oracle, or (for line kinds that only carry an
+        # associated property's verdict) the associated ones
+        v = c.verdicts.get(oracle) or ('missing' if not present else ('FAILS' if 'FAILS' in present else ('holds' if 'holds' in present else 'na')))
+        failing = (not c.bad) and (not present or 'FAILS' in present)
         if failing:
             k = is_known(c)
             if k: known_hits.setdefault(k['id'], (k, c))
